@@ -188,6 +188,8 @@ class Program:
             if np.isfinite(el) and 1e-100 < abs(el) < 1e100:
                 names += ["div_scaled_self", "div_scaled_self"]
         names += ["tensordot_scalar", "copy_copy", "deepcopy", "pickle_roundtrip"]
+        if nd >= 1 and all(ix.subinfo is None for ix in x.indices):
+            names += ["add_ragged"]
         if nd in (1, 2) and sym in ("U1", "U1U1", "Z4") and x.indices[0].subinfo is None and not ferm:
             names += ["solve_charged"]
         if nd >= 1:
@@ -328,6 +330,23 @@ class Program:
         if name == "sub_scaled_self":
             sc = rng.choice([2.0, -0.5, 4.0])
             return name, [x], (lambda a: a - (a * sc)), I()
+        if name == "add_ragged":
+            # a partner whose legs list other charges than x's (agreeing on the shared ones)
+            k_ = rng.randrange(nd)
+            cm = dict(x.indices[k_].chargemap)
+            free_ = [c for c in gen.POOL[sym] if c not in cm]
+            if len(cm) >= 2 and rng.random() < 0.6:
+                del cm[rng.choice(sorted(cm))]
+            if free_ and (rng.random() < 0.6 or cm == dict(x.indices[k_].chargemap)):
+                cm[rng.choice(free_)] = rng.randint(1, 2)
+            iy = list(x.indices)
+            iy[k_] = sr.BlockIndex(dict(sorted(cm.items())), dual=x.indices[k_].dual)
+            y = self.fresh(indices=iy, charge=x.charge)
+            if ferm:
+                y.modify(oddpos=x.oddpos)
+            if rng.random() < 0.5:
+                return name, [x, y], (lambda a, b: a + b), I()
+            return name, [y, x], (lambda a, b: a + b), I()
         if name == "copy_copy":
             import copy as _copy
 
